@@ -13,7 +13,7 @@ RULE = ('structurally random valid messages (all types, fields in random order, 
 
 def run(ctx):
     rng = random.Random(ctx.seed)
-    cs = gen_wire.dem_cases(rng, 120 if ctx.quick else 4000, 300 if ctx.quick else 5000)
+    cs = gen_wire.dem_cases(rng, 450 if ctx.quick else 6000, 600 if ctx.quick else 8000)
     cs = list(dict.fromkeys(cs))
     outs, crashes = vlib.run_harness(ctx.build, 'demarshal', [c.hex() or '-' for c in cs])
     recs, violations = [], []
